@@ -304,6 +304,7 @@ class SwissMemoryResource : public SharedMonotonicBufferResource {
     other._arena.store(nullptr, ::std::memory_order_relaxed);
   }
   inline SwissMemoryResource& operator=(SwissMemoryResource&& other) noexcept {
+    SharedMonotonicBufferResource::operator=(::std::move(other));
     _arena.store(other._arena.load(::std::memory_order_relaxed),
                  ::std::memory_order_relaxed);
     other._arena.store(nullptr, ::std::memory_order_relaxed);
